@@ -339,7 +339,7 @@ ASSUME_GEN = ["pre-state: arbitrary generator satisfying the representation inva
               "reference model S* = harness/spec/ctph.rs (pure CTPH), validated natively against the repository's "
               "libfuzzy-generated vectors by dev/validate_model"]
 ALL_PAIRS = [(s, e) for s in range(31) for e in range(s + 1, 32)]
-BOUNDARY_PAIRS = [(0, 1), (0, 2), (0, 31), (29, 31), (30, 31), (3, 6)]
+BOUNDARY_PAIRS = [(0, 1), (0, 31), (29, 31), (30, 31)]
 
 
 def gen_q(kind, st, en, prop, tiers, cap, cost, extra_name=""):
@@ -380,12 +380,13 @@ GEN_CALL = {
 }
 
 for (st, en) in ALL_PAIRS:
-    gen_q("c01_step", st, en, "C01", ("quick", "thorough"), (600, 1500), 300)
-    gen_q("c01_digest_trunc", st, en, "C01", ("quick", "thorough"), (600, 1800), 300)
-    gen_q("c01_digest_long", st, en, "C01", ("quick", "thorough"), (600, 1800), 300)
+    gen_q("c01_step", st, en, "C01", ("quick", "thorough"), (900, 1500), 300)
+    gen_q("c01_digest_trunc", st, en, "C01", ("quick", "thorough"), (900, 1800), 300)
+    gen_q("c01_digest_long", st, en, "C01", ("quick", "thorough"), (900, 1800), 300)
 for (st, en) in [(0, 1), (0, 2), (2, 5), (0, 31), (29, 31), (30, 31), (7, 8), (12, 20)]:
     for kind in ("c03_two_slice", "c03_two_iter", "c03_two_addslice", "c03_two_addarray"):
-        gen_q(kind, st, en, "C03", ("quick", "thorough"), (900, 2400), 500)
+        quick = (st, en) in ((0, 2), (29, 31)) and kind in ("c03_two_slice", "c03_two_iter") or ((st, en) == (2, 5))
+        gen_q(kind, st, en, "C03", ("quick", "thorough") if quick else ("thorough",), (900, 2400), 500)
 
 PROP_META["C01"] = {
     "technique": "Kani/CBMC inductive single-step differential against a pure-CTPH reference model: arbitrary "
@@ -458,7 +459,8 @@ K("c13_u64_ilog2_full", "C13", M_UTILS, fn="c20_u64_ilog2_full", shape="full dom
 # C13 re-uses the C01 inductive queries for the ranges reaching index 30 / the last-piece hash
 for (st, en) in [(0, 31), (29, 31), (30, 31), (15, 31)]:
     for kind in ("c01_step", "c01_digest_trunc", "c01_digest_long"):
-        q = gen_q(kind, st, en, "C13", ("quick", "thorough"), (600, 1800), 300)
+        quick = (st, en) in ((29, 31), (30, 31)) and kind != "c01_digest_long"
+        q = gen_q(kind, st, en, "C13", ("quick", "thorough") if quick else ("thorough",), (900, 1800), 300)
         q.name = "c13_" + q.name
 PROP_META["C18"] = {
     "technique": "Kani/CBMC BMC of hash_stream_common with a nondeterministic Read implementation (arbitrary "
@@ -508,7 +510,7 @@ def generated_files(qs):
     return {"verif_gen/gen_pairs.rs": _gen_text(qs)}
 
 
-QUICK_ROTATING = 2
+QUICK_ROTATING = 1
 
 
 def select(prop, tier, seed, qs):
@@ -524,7 +526,9 @@ def select(prop, tier, seed, qs):
     rnd = random.Random(seed)
     rest = [p for p in ALL_PAIRS if p not in BOUNDARY_PAIRS]
     pick = set(BOUNDARY_PAIRS) | set(rnd.sample(rest, QUICK_ROTATING))
-    return others + [q for q in fam if (q.gen["st"], q.gen["en"]) in pick]
+    long_only = {(0, 31), (30, 31)}
+    return others + [q for q in fam if (q.gen["st"], q.gen["en"]) in pick
+                     and (q.gen["kind"] != "c01_digest_long" or (q.gen["st"], q.gen["en"]) in long_only)]
 
 
 # ------------------------------------------------------------------------------------
@@ -589,18 +593,22 @@ for (N, C) in [(32, 8), (64, 16)]:
       bound="arbitrary RLE block (2 free symbols) on every valid normalized block hash of <= 8 symbols: accepted => canonical",
       enc=["is_valid_rle_block_for_block_hash::<%d,%d>" % (N, C), "expand_block_hash_using_rle", "compress_block_hash_with_rle"],
       assumptions=[ASSUME_SYM])
-for (S, m, tiers, cap, cost) in [("short", 5, ("quick",), (900, 0), 500),
-                                 ("short", 8, ("thorough",), (0, 3000), 900),
-                                 ("long", 8, ("thorough",), (0, 3000), 900),
-                                 ("short", 12, ("thorough",), (0, 3600), 2000)]:
-    K("c07_object_%s_m%d" % (S, m), "C07", M_DUAL, cfg="release", tiers=tiers, cap=cap, cost=cost, mem=14,
-      unwindset=dual_rules(n_in=m + 1, n_rle=17), shape="BMC",
-      bound="object routes of the %s dual type, raw block hashes <= %d symbols" % (S, m),
-      outside="object-level wrappers with longer block hashes (they forward to the kernels)",
-      enc=["FuzzyHashDualData::from_raw_form", "From<raw>", "init_from_raw_form", "new_from_internals(_near_raw)",
-           "to_raw_form", "into_mut_raw_form", "as_normalized", "to_normalized", "normalize_in_place",
-           "from_normalized", "is_valid", "is_normalized", "PartialEq", "Ord"],
-      assumptions=[ASSUME_SYM, "raw source object valid (spec_valid)"])
+for (kind, what) in [("build", "every constructor route incl. re-initialising a dirty object builds the same valid dual hash"),
+                     ("lossless", "to_raw_form / into_mut_raw_form give back the raw hash; normalized part == normalize()"),
+                     ("cleared", "normalize_in_place == dual of the normalized hash")]:
+    for (S, m, tiers, cap, cost) in [("short", 5, ("quick",), (900, 0), 400), ("short", 8, ("thorough",), (0, 3000), 900),
+                                     ("long", 8, ("thorough",), (0, 3000), 900)]:
+        K("c07_object_%s_%s_m%d" % (kind, S, m), "C07", M_DUAL, cfg="release", tiers=tiers, cap=cap, cost=cost, mem=14,
+          unwindset=dual_rules(n_in=m + 1, n_rle=17) + alg_rules(n_norm=m + 1), shape="BMC",
+          bound="%s; %s dual type, raw block hashes <= %d symbols" % (what, S, m),
+          outside="object-level wrappers with longer block hashes (they forward to the kernels)",
+          enc=["FuzzyHashDualData::from_raw_form", "From<raw>", "init_from_raw_form", "new_from_internals(_near_raw)",
+               "to_raw_form", "into_mut_raw_form", "as_normalized", "to_normalized", "normalize_in_place",
+               "from_normalized", "is_valid", "is_normalized"],
+          assumptions=[ASSUME_SYM, "raw source object valid (spec_valid)"])
+K("c07_object_build_short_m12", "C07", M_DUAL, cfg="release", tiers=("thorough",), cap=(0, 3600), cost=2000, mem=14,
+  unwindset=dual_rules(n_in=13, n_rle=17), shape="BMC", bound="constructor routes, short dual type, raw block hashes <= 12 symbols",
+  enc=["FuzzyHashDualData::from_raw_form", "init_from_raw_form", "new_from_internals(_near_raw)"], assumptions=[ASSUME_SYM])
 
 PROP_META["C16"] = {
     "technique": "Kani/CBMC BMC: Eq / Hash (recording hasher) / Ord of two (three) symbolic valid objects against "
@@ -652,7 +660,7 @@ for nm, tiers, cap, cost in [("c15_short_long_raw_m16", ("quick",), (600, 0), 20
            "TryFrom<long> for short", "From<short norm> for long raw", "to_raw_form", "normalize"],
       assumptions=["source valid (spec_valid); destination arbitrary bits"])
 for nm in ("c15_dual_edges_short_m8",):
-    K(nm, "C15", M_DUAL, fn="c07_object_short_m8", cfg="release", tiers=("thorough",), cap=(0, 3000), cost=900, mem=14,
+    K(nm, "C15", M_DUAL, fn="c07_object_lossless_short_m8", cfg="release", tiers=("thorough",), cap=(0, 3000), cost=900, mem=14,
       unwindset=dual_rules(n_in=9, n_rle=17), shape="BMC",
       bound="dual edges (from_raw_form/from_normalized/to_raw_form/to_normalized/into_mut_raw_form/From), block hashes <= 8",
       enc=["FuzzyHashDualData conversions"], assumptions=["source valid (spec_valid)"])
@@ -1036,3 +1044,19 @@ K("c02_reused_target_init_m6", "C02", M_CMP, fn="c17_target_init_short_m6", cfg=
   unwindset=pa_rules(n_init=7) + [("@memcmp.0", 520)], shape="inductive step",
   bound="the reusable comparison target: init_from on an ARBITRARY (previously used) target == a fresh target, block hashes <= 6",
   enc=["FuzzyHashCompareTarget::init_from", "From<&FuzzyHashData>"], assumptions=[ASSUME_SYM])
+
+# aliases: queries that decide the part of another property naming the same behaviour
+K("c11_dual_reused_destination_m5", "C11", M_DUAL, fn="c07_object_build_short_m5", cfg="release", cap=(900, 2400), cost=400, mem=14,
+  unwindset=dual_rules(n_in=6, n_rle=17), shape="inductive step",
+  bound="init_from_raw_form into an ARBITRARY (previously used) dual object gives the same valid object as a fresh build; <= 5 symbols",
+  enc=["FuzzyHashDualData::init_from_raw_form", "compress_block_hash_with_rle", "is_valid"], assumptions=[ASSUME_SYM])
+K("c13_fork_limit_for_every_hint", "C13", M_GEN, fn="c12_set_fixed_input_size", cfg="release", cap=(600, 1500), cost=300,
+  shape="inductive step", bound="set_fixed_input_size(n) for every n: fork limit == min(30, level(n)+1), never above the largest block size",
+  enc=["Generator::set_fixed_input_size"], assumptions=ASSUME_GEN[:1])
+K("c13_hint_keeps_limit_ok", "C13", M_GEN, fn="c12_hint_keeps_limit_ok", cfg="release", shape="full domain", cap=(300, 600), cost=10,
+  bound="every hint n <= 192 GiB: the invariant (limit <= 30) and the reachability of every selectable level hold",
+  enc=["Generator::set_fixed_input_size"])
+for nm in ("c16_pair_long_raw_m4_40", "c16_pair_long_norm_m4_40"):
+    K(nm, "C16", M_HASH, cfg="release", cap=(900, 2400), cost=300, mem=12, unwindset=[("@memcmp.0", 70)], shape="BMC",
+      bound="pairs of valid long hashes, block hash 1 <= 4, block hash 2 <= 40 symbols (differences beyond index 32)",
+      enc=["PartialEq::eq", "Ord::cmp", "Hash::hash"], assumptions=["both objects valid (spec_valid)"])
